@@ -149,7 +149,7 @@ def _calc_cases(clsref, allow_sigma_none=True):
                     opts = {'post_body': _core_post} if (hc and pot == 'array' and sig == 'real') else {}
                     if pot == 'array' and sig == 'real':
                         # PRISM.__init__ assigns .sigma and .potential on closures that may have been evaluated before
-                        opts['history'] = {'method': 'calculate', 'mutable': ('sigma', 'potential')}
+                        opts['history'] = {'method': 'calculate', 'mutable': ('sigma', 'potential'), 'other': True}
                     yield 'hard_core=%s,potential=%s,sigma=%s' % (hc, pot, sig), build, opts
     return gen
 
